@@ -495,6 +495,10 @@ impl Scanner {
                     return Err(());
                 }
                 read_chars.push_str(chars);
+                if read_chars.ends_with('\n') {
+                    // Not a hexadecimal digit, but a line of the source all the same.
+                    self.line += 1;
+                }
             }
             let result = u8::from_str_radix(read_chars.as_str(), 16);
             match result {
